@@ -320,7 +320,8 @@ fn main() {
                     let mut e6 = sd.clone(); e6.insert(kz.clone(), 1); edits.push(("stake 0 altered to 1", e6));
                 }
                 for (what, e) in edits {
-                    let r = CardanoStakeDistributionSignableBuilder::compute_merkle_tree_from_stake_distribution(e).unwrap().compute_root().unwrap().to_vec();
+                    // (an EMPTY distribution has no root: the computation fails, which is another outcome than `root`)
+                    let Some(r) = CardanoStakeDistributionSignableBuilder::compute_merkle_tree_from_stake_distribution(e).ok().and_then(|t| t.compute_root().ok()).map(|r| r.to_vec()) else { continue };
                     if r == root { sink.sfail(i, "stake-distribution", &format!("{}: same Merkle root", what), "stake distribution"); }
                 }
             }
